@@ -331,6 +331,7 @@ struct World {
     keeper: HashMap<u64, usize>, // port -> actor whose state holds it
     stashed: Vec<(usize, usize)>, // (supervisor, actor) events the harness had stashed (generator hint only)
     free_fcall: bool,
+    newly_dead: Vec<usize>, // actors seen Stopped (`get_status`) since the last op line was closed
 }
 
 async fn quiesce() {
@@ -360,6 +361,7 @@ impl World {
             keeper: HashMap::new(),
             stashed: vec![],
             free_fcall: false,
+            newly_dead: vec![],
         }
     }
 
@@ -781,10 +783,11 @@ impl World {
     }
 
     fn refresh_alive(&mut self) {
-        for ah in self.actors.iter_mut() {
+        for (i, ah) in self.actors.iter_mut().enumerate() {
             if ah.alive && ah.r.get_status() == ractor::ActorStatus::Stopped {
                 ah.alive = false;
                 ah.queued = 0;
+                self.newly_dead.push(i);
             }
         }
     }
@@ -948,7 +951,20 @@ impl World {
     }
 
     /// execute one op line; returns the observation
+    /// execute one op line; the observation ends with ` # died a,b` when actors were seen to have
+    /// stopped during the op (the implementation's own word on who died — the oracle uses only this)
     async fn exec(&mut self, line: &str) -> String {
+        let obs = self.exec_inner(line).await;
+        self.refresh_alive();
+        if self.newly_dead.is_empty() {
+            return obs;
+        }
+        self.newly_dead.sort();
+        let d: Vec<String> = self.newly_dead.drain(..).map(|a| a.to_string()).collect();
+        format!("{obs} # died {}", d.join(","))
+    }
+
+    async fn exec_inner(&mut self, line: &str) -> String {
         let w: Vec<&str> = line.split_whitespace().collect();
         let t = |s: &str| -> Option<u64> { if s == "-" { None } else { s.parse().ok() } };
         match w.as_slice() {
